@@ -325,7 +325,9 @@ def to_numpy(array, allow_missing=True):
                 return content
 
     elif isinstance(array, ak.layout.RegularArray):
-        out = to_numpy(array.content, allow_missing=allow_missing)
+        out = to_numpy(
+            array.content[: len(array) * array.size], allow_missing=allow_missing
+        )
         tail = out.shape[1:]
         shape = (len(array), array.size) + tail
         return out[: shape[0] * array.size].reshape(shape)
